@@ -36,6 +36,8 @@ func main() {
 		cmdProp(os.Args[2:])
 	case "replay":
 		cmdReplay(os.Args[2:])
+	case "replay-selftest":
+		cmdReplaySelftest(os.Args[2:])
 	case "gen-contracts":
 		cmdGen(os.Args[2:])
 	default:
